@@ -91,6 +91,18 @@ Locks.vos Locks.vok Locks.required_vos: Locks.v
 LocksFacts.vo LocksFacts.glob LocksFacts.v.beautified LocksFacts.required_vo: LocksFacts.v Locks.vo
 LocksFacts.vio: LocksFacts.v Locks.vio
 LocksFacts.vos LocksFacts.vok LocksFacts.required_vos: LocksFacts.v Locks.vos
+SortProto.vo SortProto.glob SortProto.v.beautified SortProto.required_vo: SortProto.v 
+SortProto.vio: SortProto.v 
+SortProto.vos SortProto.vok SortProto.required_vos: SortProto.v 
+SortProtoFacts.vo SortProtoFacts.glob SortProtoFacts.v.beautified SortProtoFacts.required_vo: SortProtoFacts.v SortProto.vo
+SortProtoFacts.vio: SortProtoFacts.v SortProto.vio
+SortProtoFacts.vos SortProtoFacts.vok SortProtoFacts.required_vos: SortProtoFacts.v SortProto.vos
+SortProtoSafety.vo SortProtoSafety.glob SortProtoSafety.v.beautified SortProtoSafety.required_vo: SortProtoSafety.v SortProto.vo SortProtoFacts.vo
+SortProtoSafety.vio: SortProtoSafety.v SortProto.vio SortProtoFacts.vio
+SortProtoSafety.vos SortProtoSafety.vok SortProtoSafety.required_vos: SortProtoSafety.v SortProto.vos SortProtoFacts.vos
+SortProtoMutants.vo SortProtoMutants.glob SortProtoMutants.v.beautified SortProtoMutants.required_vo: SortProtoMutants.v SortProto.vo
+SortProtoMutants.vio: SortProtoMutants.v SortProto.vio
+SortProtoMutants.vos SortProtoMutants.vok SortProtoMutants.required_vos: SortProtoMutants.v SortProto.vos
 Previous.vo Previous.glob Previous.v.beautified Previous.required_vo: Previous.v Collection.vo Store.vo
 Previous.vio: Previous.v Collection.vio Store.vio
 Previous.vos Previous.vok Previous.required_vos: Previous.v Collection.vos Store.vos
@@ -139,6 +151,18 @@ Sync2ProgressC.vos Sync2ProgressC.vok Sync2ProgressC.required_vos: Sync2Progress
 Sync2Progress.vo Sync2Progress.glob Sync2Progress.v.beautified Sync2Progress.required_vo: Sync2Progress.v Sync2.vo Sync2Facts.vo Sync2ProgressA.vo Sync2ProgressB.vo Sync2ProgressC.vo
 Sync2Progress.vio: Sync2Progress.v Sync2.vio Sync2Facts.vio Sync2ProgressA.vio Sync2ProgressB.vio Sync2ProgressC.vio
 Sync2Progress.vos Sync2Progress.vok Sync2Progress.required_vos: Sync2Progress.v Sync2.vos Sync2Facts.vos Sync2ProgressA.vos Sync2ProgressB.vos Sync2ProgressC.vos
+Sync2StallA.vo Sync2StallA.glob Sync2StallA.v.beautified Sync2StallA.required_vo: Sync2StallA.v Sync2.vo Sync2Facts.vo Sync2ProgressA.vo Sync2Progress.vo
+Sync2StallA.vio: Sync2StallA.v Sync2.vio Sync2Facts.vio Sync2ProgressA.vio Sync2Progress.vio
+Sync2StallA.vos Sync2StallA.vok Sync2StallA.required_vos: Sync2StallA.v Sync2.vos Sync2Facts.vos Sync2ProgressA.vos Sync2Progress.vos
+Sync2StallB.vo Sync2StallB.glob Sync2StallB.v.beautified Sync2StallB.required_vo: Sync2StallB.v Sync2.vo Sync2Facts.vo Sync2ProgressA.vo Sync2Progress.vo Sync2StallA.vo
+Sync2StallB.vio: Sync2StallB.v Sync2.vio Sync2Facts.vio Sync2ProgressA.vio Sync2Progress.vio Sync2StallA.vio
+Sync2StallB.vos Sync2StallB.vok Sync2StallB.required_vos: Sync2StallB.v Sync2.vos Sync2Facts.vos Sync2ProgressA.vos Sync2Progress.vos Sync2StallA.vos
+Sync2StallC.vo Sync2StallC.glob Sync2StallC.v.beautified Sync2StallC.required_vo: Sync2StallC.v Sync2.vo Sync2Facts.vo Sync2ProgressA.vo Sync2Progress.vo Sync2StallA.vo
+Sync2StallC.vio: Sync2StallC.v Sync2.vio Sync2Facts.vio Sync2ProgressA.vio Sync2Progress.vio Sync2StallA.vio
+Sync2StallC.vos Sync2StallC.vok Sync2StallC.required_vos: Sync2StallC.v Sync2.vos Sync2Facts.vos Sync2ProgressA.vos Sync2Progress.vos Sync2StallA.vos
+Sync2Stall.vo Sync2Stall.glob Sync2Stall.v.beautified Sync2Stall.required_vo: Sync2Stall.v Sync2.vo Sync2Facts.vo Sync2ProgressA.vo Sync2Progress.vo Sync2StallA.vo Sync2StallB.vo Sync2StallC.vo
+Sync2Stall.vio: Sync2Stall.v Sync2.vio Sync2Facts.vio Sync2ProgressA.vio Sync2Progress.vio Sync2StallA.vio Sync2StallB.vio Sync2StallC.vio
+Sync2Stall.vos Sync2Stall.vok Sync2Stall.required_vos: Sync2Stall.v Sync2.vos Sync2Facts.vos Sync2ProgressA.vos Sync2Progress.vos Sync2StallA.vos Sync2StallB.vos Sync2StallC.vos
 Iterator.vo Iterator.glob Iterator.v.beautified Iterator.required_vo: Iterator.v Bytes.vo Segment.vo Stack.vo
 Iterator.vio: Iterator.v Bytes.vio Segment.vio Stack.vio
 Iterator.vos Iterator.vok Iterator.required_vos: Iterator.v Bytes.vos Segment.vos Stack.vos
